@@ -202,7 +202,13 @@ def run_cpp(prop, tier, seed, replay=None):
             cmd += ["--stage", s]
         cmd += ["--replay-site", rj["site"]]
     t0 = time.time()
-    p = subprocess.run(cmd, cwd=VERIF, stderr=subprocess.PIPE, text=True)
+    try:
+        p = subprocess.run(cmd, cwd=VERIF, stderr=subprocess.PIPE, text=True, timeout=3 * deadline + 900)
+    except subprocess.TimeoutExpired as ex:
+        # the harness honours --deadline between work items; not terminating long after it means a call never returned
+        sys.stderr.write((ex.stderr or b"").decode(errors="replace") if isinstance(ex.stderr, bytes) else (ex.stderr or ""))
+        log("HARNESS-ERROR: %s did not terminate within %d s (deadline %d s)" % (exe, 3 * deadline + 900, deadline))
+        return 2
     sys.stderr.write(p.stderr)
     if p.returncode < 0 or p.returncode == 134:
         # The harness died on a signal (abort from an exception escaping a noexcept/unchecked library call, SIGFPE,
